@@ -47,10 +47,17 @@ def include_source_rule(rep):
 
 def anonymous_name_only(fn, idcall):
     """the id() value flows only into the f-string that names an anonymous rule"""
+    from .. import paths as P
     for n in ast.walk(fn):
         if isinstance(n, ast.JoinedStr) and any(x is idcall for x in ast.walk(n)):
             lit = ''.join(v.value for v in n.values if isinstance(v, ast.Constant))
             return lit.startswith('_anonymous_')
+    # any other way of building the text (%, .format, +): the literal part starts with the reserved prefix
+    for n in ast.walk(fn):
+        if isinstance(n, (ast.Assign, ast.Return)) and n.value is not None and any(x is idcall for x in ast.walk(n.value)):
+            parts = P.render_parts(P.Enumerator().val(n.value, {}))
+            if parts and parts[0][0] == 'lit' and parts[0][1].startswith('_anonymous_'):
+                return True
     return False
 
 
